@@ -133,7 +133,11 @@ class SChunkT(SChunk):
     def sym_setattr(self, ctx, name, val):
         key = {'_slices': 'table.slices', '_groups': 'table.groups', '_layers': 'table.layers', '_data': 'data.*', '_prms': 'prms'}.get(name)
         if key is None:
-            raise HardUnsupported(f'assignment to chunk field {name}')
+            # any other attribute of the chunk (e.g. the high-cloud flag, fixed at construction): a write is tracked like every
+            # other write, so "a query / a refused call changes nothing" fails on it instead of leaving the check undecided
+            self.versions.bump('field.' + name)
+            self.fields[name] = val
+            return
         self.versions.bump(key)
         if name in ('_slices', '_groups', '_layers'):
             val = STab(self.versions, name[1:]) if val is not None else None
